@@ -274,10 +274,12 @@ inductive Item where
   deriving Repr
 
 /-- `pattern_as_str` (lib.rs:878-888). -/
-def patternAsStr (p : Pattern) : Option Str :=
-  p.tokens.mapM fun
-    | .char c => some c
-    | _ => none
+def charsOf : List Token → Option Str
+  | [] => some []
+  | .char c :: ts => (charsOf ts).map (c :: ·)
+  | _ :: _ => none
+
+def patternAsStr (p : Pattern) : Option Str := charsOf p.tokens
 
 /-- Code-point order on names = `OsStr` order of UTF-8 bytes. -/
 def strLt : Str → Str → Bool
@@ -388,9 +390,20 @@ inductive GlobResult where
   | paths (ps : List Str)
   deriving DecidableEq, Repr
 
+/-- `Pattern::new(component)?` for every component (lib.rs:253-255). -/
+def newAll : List Str → Except PatternError (List Pattern)
+  | [] => .ok []
+  | c :: cs =>
+    match Pattern.new c with
+    | .error e => .error e
+    | .ok p =>
+      match newAll cs with
+      | .error e => .error e
+      | .ok ps => .ok (p :: ps)
+
 /-- `dir_patterns` of `glob_with` for an absolute pattern (lib.rs:249-263). -/
 def dirPatterns (pattern : Str) : Except PatternError (List Pattern) :=
-  match (splitTerminator (pattern.drop 1)).mapM Pattern.new with
+  match newAll (splitTerminator (pattern.drop 1)) with
   | .error e => .error e
   | .ok ps => .ok (if pattern.length == 1 then ps ++ [Pattern.empty] else ps)
 
